@@ -280,6 +280,18 @@ def build_cases(nb, seed, tier):
                     if nsamp:
                         u.sample(nsamp)
                     cases.append(('union-%d-%s-%s-s%dt%dn%d' % (d, 'unit' if unit else 'free', cls.__name__[:3], nsplit, ntrim, nsamp), 'union', u))
+    # unions with more than ten members (two-digit group names: bound_10, bound_11, ...), split until nothing splits any more
+    for d in (2, 3):
+        for cls in (B.Ellipsoid, UnitCubeEllipsoidMixture):
+            rng = np.random.default_rng(int(rng0.integers(1 << 30)))
+            centres = rng0.random((13, d)) * 0.8 + 0.1
+            pts = np.clip(np.vstack([rng0.normal(c, 0.004, (30, d)) for c in centres]), 1e-6, 1 - 1e-6)
+            u = B.Union.compute(pts, unit=True, bound_class=cls, n_points_min=d + 5, rng=rng)
+            for _ in range(40):
+                if not u.split():
+                    break
+            u.sample(40)
+            cases.append(('union-%d-many%d-%s' % (d, len(u.bounds), cls.__name__[:3]), 'union', u))
     nets = [0, 1] if tier == 'quick' else [0, 1, 3]
     nn_kwargs = dict(hidden_layer_sizes=(12, 6), max_iter=150)
     for d in dims[:2] if tier == 'quick' else dims[:4]:
